@@ -1,20 +1,27 @@
 """Which units and Kani groups decide which property (DESIGN.md section 5)."""
 
+TF = ("textfilter",)
 # unit name -> feature sets it is generated for (each is one Verus run)
 UNITS = {
     "state": [()],
+    "spec": [TF],
+    "handle_a": [TF], "handle_b": [TF], "handle_b2": [TF], "handle_c": [TF],
+    "logger": [TF],
 }
 
 # property -> list of (unit, features)
 PROP_UNITS = {
     "C01": [("state", ())],
+    "C02": [("spec", TF), ("logger", TF), ("handle_c", TF)],
     "C04": [("state", ())],
+    "C05": [("handle_a", TF), ("handle_b", TF), ("handle_b2", TF), ("handle_c", TF), ("spec", TF)],
     "C06": [("state", ())],
     "C08": [("state", ())],
     "C09": [("state", ())],
+    "C13": [("logger", TF)],
     "C15": [("state", ())],
     "C18": [("state", ())],
-    "C19": [("state", ())],
+    "C19": [("state", ()), ("logger", TF)],
 }
 
 # property -> Kani groups (see lib/kani_unit.py)
@@ -23,6 +30,6 @@ PROP_KANI = {
 
 # C10 (panic freedom) owns every safety obligation Verus generates in every unit
 C10_UNITS = sorted({(u, f) for u, fs in UNITS.items() for f in fs})
+C10_CLAIMED = True
 
-CLAIMED = sorted(set(PROP_UNITS) | set(PROP_KANI))
-C10_CLAIMED = False
+CLAIMED = sorted(set(PROP_UNITS) | set(PROP_KANI) | ({"C10"} if C10_CLAIMED else set()))
